@@ -291,6 +291,17 @@ Definition finish (c : cfg) (mask : N) (s : st) : res (outcome * st) :=
   | _ => Ok (Done, s)
   end.
 
+(* the head of the loop body of evaluate_internal:
+     if let Some(max) = self.max_iterations { if self.iteration >= max { return Err(TooManyIterations) } self.iteration += 1; }
+   the counter is compared before it is incremented and is not touched when no limit is set *)
+Definition count_iteration (dbg : bool) (c : cfg) (s : st) : res st :=
+  match c_max c with
+  | Some m =>
+      if m <=? s_iter s then Err ETooManyIterations
+      else let* it := chk_add 32 dbg (s_iter s) 1 in Ok (set_iter s it)
+  | None => Ok s
+  end.
+
 (* Evaluation::evaluate_internal; one unit of fuel per loop iteration *)
 Fixpoint evaluate_internal (fuel : nat) (dbg : bool) (c : cfg) (mask : N) (s : st) : res (outcome * st) :=
   match fuel with
@@ -298,9 +309,7 @@ Fixpoint evaluate_internal (fuel : nat) (dbg : bool) (c : cfg) (mask : N) (s : s
   | S fuel' =>
       let '(e, s) := end_of_expression s in
       if e then finish c mask s else
-      let* it := chk_add 32 dbg (s_iter s) 1 in               (* self.iteration += 1 *)
-      let s := set_iter s it in
-      if (match c_max c with Some m => m <? it | None => false end) then Err ETooManyIterations else
+      let* s := count_iteration dbg c s in
       let* (r, s) := evaluate_one_operation dbg c mask s in
       match r with
       | RPiece => evaluate_internal fuel' dbg c mask s
